@@ -282,6 +282,30 @@ func VX_C06_apply() {
 	}
 	ix := vxConcIndex(n, P)
 	f := vxFrame(names, cols, ix)
+	if vx.HasParam("pre") {
+		// the frame is a projection of a wider frame: column positions have moved
+		var keep []string
+		switch vx.ParamStr("pre") {
+		case "drop_first":
+			f = f.Drop("a")
+			keep = names[1:]
+		case "select_rev":
+			keep = []string{"e", "s", "c", "f", "b", "a"}
+			f = f.Select(keep...)
+		case "drop_mid":
+			f = f.Drop("f")
+			keep = []string{"a", "b", "c", "s", "e"}
+		}
+		var kc []vxCol
+		for _, nm := range keep {
+			for j := range names {
+				if names[j] == nm {
+					kc = append(kc, cols[j])
+				}
+			}
+		}
+		names, cols = keep, kc
+	}
 	cur := map[string]vxCol{}
 	for k, nm := range names {
 		cur[nm] = cols[k]
